@@ -640,27 +640,69 @@ def run(rep):
     rep.check(okd, "R09.b", rel, "_csvhead", "dict comments: colon-free lower-case key, value stored unchanged", det, line=ch.lineno)
     # reader regular expressions (syntax trees)
     import re._parser as sp
-    strip = [n for n in ast.walk(r) if isinstance(n, ast.Call) and dotted(n.func) == "re.sub" and len(n.args) == 3 and ast.unparse(n.args[2]) == "line"]
-    if not strip:
+
+    def regex_strip_issues(pat):
+        tree = sp.parse(pat)
+        alts = [list(tree)]
+        if len(tree) == 1 and str(tree[0][0]) == "BRANCH":
+            alts = [list(a) for a in tree[0][1][1]]
+        bad = []
+        for a in alts:
+            has_hash = any(str(op) == "LITERAL" and av == ord("#") for op, av in a)
+            anchored = bool(a) and str(a[0][0]) == "AT" and str(a[0][1]) == "AT_BEGINNING"
+            if has_hash and not anchored:
+                bad.append("alternative matching '#' is not anchored at the beginning of the line")
+            has_nl = any(str(op) == "LITERAL" and av == 10 for op, av in a)
+            if has_nl and not (str(a[-1][0]) == "AT" and str(a[-1][1]) == "AT_END"):
+                bad.append("alternative matching the newline is not anchored at the end")
+            if not has_hash and not has_nl:
+                bad.append("alternative strips something else than the leading '# ' or the final newline")
+        return bad
+    # what is appended to the header list for a line: a chain of clean-up operations applied to the line read
+    apps = [n for n in ast.walk(r) if isinstance(n, ast.Call) and isinstance(n.func, ast.Attribute) and n.func.attr == "append" and len(n.args) == 1 and
+            any(isinstance(x, ast.Name) and x.id == "line" for x in ast.walk(n.args[0]))]
+    if not apps:
         raise AnalysisError(f"{rel}: read_csv: header strip expression not found")
-    pat = const_value(strip[0].args[0])
-    tree = sp.parse(pat)
-    alts = [list(tree)]
-    if len(tree) == 1 and str(tree[0][0]) == "BRANCH":
-        alts = [list(a) for a in tree[0][1][1]]
-    bad = []
-    for a in alts:
-        has_hash = any(str(op) == "LITERAL" and av == ord("#") for op, av in a)
-        anchored = bool(a) and str(a[0][0]) == "AT" and str(a[0][1]) == "AT_BEGINNING"
-        if has_hash and not anchored:
-            bad.append("alternative matching '#' is not anchored at the beginning of the line")
-        has_nl = any(str(op) == "LITERAL" and av == 10 for op, av in a)
-        if has_nl and not (str(a[-1][0]) == "AT" and str(a[-1][1]) == "AT_END"):
-            bad.append("alternative matching the newline is not anchored at the end")
-        if not has_hash and not has_nl:
-            bad.append("alternative strips something else than the leading '# ' or the final newline")
-    rep.check(not bad and const_value(strip[0].args[1]) == "", "R09.b", rel, "read_csv", f"header strip pattern {pat!r} removes only the leading '# ' and the final newline",
-              "; ".join(bad), line=strip[0].lineno)
+    WS = set(" \t\r\n\f\v")
+    for ap in apps:
+        e = ap.args[0]
+        bad, und, ops = [], [], []
+        removes_hash = False
+        while not (isinstance(e, ast.Name) and e.id == "line"):
+            if isinstance(e, ast.Call) and dotted(e.func) == "re.sub" and len(e.args) == 3 and isinstance(const_value(e.args[0]), str):
+                if const_value(e.args[1]) != "":
+                    bad.append("re.sub replaces with a non-empty string")
+                iss = regex_strip_issues(const_value(e.args[0]))
+                bad += iss
+                removes_hash = removes_hash or "#" in const_value(e.args[0])
+                ops.append(f"re.sub({const_value(e.args[0])!r})")
+                e = e.args[2]
+            elif isinstance(e, ast.Call) and isinstance(e.func, ast.Attribute) and e.func.attr in ("strip", "lstrip", "rstrip") and len(e.args) <= 1:
+                chars = const_value(e.args[0]) if e.args else None
+                if e.args and not isinstance(chars, str):
+                    und.append("strip characters are not a literal")
+                    break
+                cs = WS if chars is None else set(chars)
+                side = e.func.attr
+                if side in ("strip", "rstrip") and not cs <= WS:
+                    bad.append(f".{side}({chars!r}) also removes {sorted(cs - WS)} from the END of the line (a value ending with them is altered)")
+                if side in ("strip", "lstrip") and not cs <= (WS | {"#"}):
+                    bad.append(f".{side}({chars!r}) removes {sorted(cs - WS - {'#'})} from the beginning of the line")
+                removes_hash = removes_hash or (side in ("strip", "lstrip") and "#" in cs)
+                ops.append(f".{side}({chars!r})" if chars is not None else f".{side}()")
+                e = e.func.value
+            elif isinstance(e, ast.Call) and isinstance(e.func, ast.Attribute) and e.func.attr in ("removeprefix",) and len(e.args) == 1 and const_value(e.args[0]) in ("#", "# "):
+                removes_hash = True
+                ops.append(".removeprefix")
+                e = e.func.value
+            else:
+                und.append(f"clean-up step outside the vocabulary: {ast.unparse(e)[:60]}")
+                break
+        cons = "header line clean-up removes only the leading '#' / blanks and trailing white space"
+        if und:
+            rep.undecided("R09.b", rel, "read_csv", cons, und[0], line=ap.lineno)
+        else:
+            rep.check(not bad and removes_hash, "R09.b", rel, "read_csv", cons, "; ".join(bad) or ("the leading '#' is not removed" if not removes_hash else " ".join(ops)), line=ap.lineno)
     loopcond = [n for n in ast.walk(r) if isinstance(n, ast.While) and 'startswith' in ast.unparse(n.test)]
     rep.check(bool(loopcond) and "'#'" in ast.unparse(loopcond[0].test), "R09.b", rel, "read_csv", "header = leading lines starting with '#'", "", line=r.lineno)
     # _header2comment: one symbolic line E through the loop body
@@ -717,8 +759,9 @@ def run(rep):
     rep.check(okkn and nkeyed >= 1, "R09.b", rel, "_header2comment", "key normalised: strip, lower, blanks -> '_' (identity on the writer's keys)", "", line=h2c.lineno)
     rep.check(okfree and nfree >= 1, "R09.b", rel, "_header2comment", "lines without a colon in the key window are kept whole under a numbered comment key", "", line=h2c.lineno)
     kl = [n for n in mod.tree.body if isinstance(n, ast.Assign) and isinstance(n.targets[0], ast.Name) and n.targets[0].id == "KEY_LENGTH_MAX"]
-    okkl = bool(kl) and isinstance(const_value(kl[0].value), int) and const_value(kl[0].value) >= 17
-    rep.check(okkl, "R09.b", rel, "csv", "key window KEY_LENGTH_MAX covers the writer's own keys (longest: time_generated + ' :')", "", line=kl[0].lineno if kl else 1)
+    okkl = bool(kl) and isinstance(const_value(kl[0].value), int) and const_value(kl[0].value) >= 27
+    rep.check(okkl, "R09.b", rel, "csv", "key window KEY_LENGTH_MAX reaches the colon written after a key of 25 characters (`key :` -> colon at index len(key) + 1 < window)",
+              f"KEY_LENGTH_MAX = {const_value(kl[0].value) if kl else None}", line=kl[0].lineno if kl else 1)
 
     # ---------------- R09.c -------------------------------------------------------------------------------------------------------
     # decided on the evaluated paths of write_csv: the effects of a path are in execution order
